@@ -3,6 +3,7 @@ Facts about event-handler classes derived from their code (method closures throu
 which handlers change a trajectory, snap a position, depend on kinematics of their in-state, are self-clocked, ...
 """
 import ast
+import copy
 from typing import Dict, Iterator, List, Optional, Sequence, Set, Tuple
 
 from .core import AnalysisError
@@ -12,10 +13,13 @@ LOG_CALL_HEADS = ("logging", "logger", "log_init_arguments", "print", "warnings"
 
 
 class FnRef:
-    __slots__ = ("owner", "fn")
+    __slots__ = ("owner", "fn", "orig")
 
     def __init__(self, owner: ClassInfo, fn: ast.FunctionDef) -> None:
-        self.owner, self.fn = owner, fn
+        from .normalize import canon
+        self.owner, self.orig = owner, fn
+        # rules see the canonical form (locals propagated, guard clauses nested, not-tests flipped); cached, so identity is stable
+        self.fn = canon(None, None, fn, helpers=False)
 
     @property
     def qual(self) -> str:
@@ -140,7 +144,12 @@ def stores(fn: ast.AST) -> Iterator[Tuple[ast.stmt, str, ast.AST, bool, Optional
         elif isinstance(n, ast.AugAssign):
             r = field_of_target(n.target)
             if r:
-                yield n, r[0], r[1], True if r[2] else False, n.value
+                # the effective value of `t op= v` is `t op v`
+                load = copy.deepcopy(n.target)
+                for x in ast.walk(load):
+                    if hasattr(x, "ctx"):
+                        x.ctx = ast.Load()
+                yield n, r[0], r[1], True if r[2] else False, ast.copy_location(ast.BinOp(left=load, op=n.op, right=n.value), n.value)
         elif isinstance(n, ast.AnnAssign) and n.value is not None:
             r = field_of_target(n.target)
             if r:
@@ -202,6 +211,8 @@ def is_time_slice_routine(fn: ast.FunctionDef) -> bool:
     Role: writes X.position[d] from an expression containing X.position[d], X.velocity[d] and X.time_stamp
     (p + v * (T - t)).  Whether it also updates the stamp is an obligation (R7.2), not part of the role.
     """
+    from .normalize import canon
+    fn = canon(None, None, fn)
     for s, field, recv, elementwise, value in stores(fn):
         if field == "position" and elementwise and value is not None:
             attrs = {n.attr for n in ast.walk(value) if isinstance(n, ast.Attribute)}
@@ -212,6 +223,8 @@ def is_time_slice_routine(fn: ast.FunctionDef) -> bool:
 
 def time_slice_obligations(fn: ast.FunctionDef):
     """Yield (rule, ok, node, message) for the shape of the time-slice routine."""
+    from .normalize import canon
+    fn = canon(None, None, fn)
     for s, field, recv, elementwise, value in stores(fn):
         if not (field == "position" and elementwise and value is not None):
             continue
@@ -246,12 +259,15 @@ def time_slice_obligations(fn: ast.FunctionDef):
             cur = parents[id(cur)]
             if isinstance(cur, ast.For) and loop_parent is None:
                 loop_parent = cur
-            if isinstance(cur, ast.If) and "velocity is not None" in ast.unparse(cur.test):
-                guarded = True
-                guard = cur
+            if isinstance(cur, ast.If):
+                t = ast.unparse(cur.test)
+                in_body = any(x is s for st in cur.body for x in ast.walk(st))
+                if ("velocity is not None" in t and in_body) or ("velocity is None" in t and not in_body):
+                    guarded = True
+                    guard_block = cur.body if in_body else cur.orelse
         yield ("R7.2-slice-guard", guarded, s, "units at rest (velocity None) must not be advanced")
         stamp = False
-        scope = guard.body if guarded else fn.body
+        scope = guard_block if guarded else fn.body
         for st in scope:
             for n in ast.walk(st):
                 if isinstance(n, ast.Call) and isinstance(n.func, ast.Attribute) and n.func.attr == "update" \
